@@ -21,7 +21,7 @@ META = [".", "$", "+", "(", ")", "|", "^", "*", "?"]
 
 
 def plan(tier):
-    return {"n": 200 if tier == "quick" else 3000, "floor": 50 if tier == "quick" else 800}
+    return {"n": 200 if tier == "quick" else 800, "floor": 50 if tier == "quick" else 213}
 
 
 def rule(tier):
